@@ -128,7 +128,11 @@ def check(run):
     for entry, texts in (("exl", [b"", b"EXLT", b"EXLT,", b"EXLT,x", b",", b",,,,", b"a,99999999999", b"\xff,1", b"EXLT,2\n#,\n,5\n"]),
                          ("patchlist.boot", [b"", b"\r\n", b"\r\n" * 5, b"\r\n" * 8, b"X-Patch-Length: ", b"X-Patch-Length: \r\n", b"a\r\nb\r\nc\r\nd\r\ne\r\nf\r\ng\r\nh\r\n",
                                              b"1\r\n2\r\n3\r\n4\r\n5\r\nx\ty\r\n7\r\n8\r\n", b"1\r\n2\r\n3\r\n4\r\n5\r\n\t\t\t\t\t\r\n7\r\n8\r\n"]),
-                         ("patchlist.game", [b"", b"1\r\n2\r\n3\r\n4\r\n5\r\na\tb\tc\td\te\tf\tg\th\ti\r\n7\r\n8\r\n", b"1\r\n2\r\n3\r\n4\r\n5\r\n1\t2\t3\t4\t5\t6\tx\t8\t9\r\n7\r\n8\r\n"]),
+                         ("patchlist.game", [b"", b"1\r\n2\r\n3\r\n4\r\n5\r\na\tb\tc\td\te\tf\tg\th\ti\r\n7\r\n8\r\n", b"1\r\n2\r\n3\r\n4\r\n5\r\n1\t2\t3\t4\t5\t6\tx\t8\t9\r\n7\r\n8\r\n",
+                                             # a row whose hash column is empty / only separators (parsed, then rendered again)
+                                             b"1\r\n2\r\n3\r\n4\r\n5\r\n1\t2\t3\t4\t5\t6\t7\t\t9\r\n7\r\n8\r\n",
+                                             b"1\r\n2\r\n3\r\n4\r\n5\r\n1\t2\t3\t4\t5\t6\t7\t,\t9\r\n7\r\n8\r\n",
+                                             b"1\r\n2\r\n3\r\n4\r\n5\r\n1\t2\t3\t4\t5\t6\t7\t,,\t9\r\n1\t2\t3\t4\t5\t6\t7\tab,\t9\r\n7\r\n8\r\n"]),
                          ("log", [b"", b"\0" * 7, b"\0" * 8, struct.pack("<II", 0, 1), struct.pack("<III", 0, 1, 0), struct.pack("<III", 0, 1, 100) + b"\0" * 40,
                                   struct.pack("<II", 0xFFFFFFFF, 0xFFFFFFFF), struct.pack("<II", 5, 3) + b"\0" * 30, struct.pack("<II", 0, 0x40000000)]),
                          ("gearsets", [b"", struct.pack("<III", 0x006D0005, 0, 0) + b"\0" * 4 + b"\xff", struct.pack("<III", 0x006D0005, 1, 1) + b"\0" * 4 + b"\xff",
